@@ -233,7 +233,85 @@ fn threads<L: Tab>(run: &Run, st: bool, n: usize) {
     });
 }
 
+/// Histories mixing sizes on one fresh thread: one draw of size n1, then 64 draws of size n2.
+/// A generator that keeps state between calls (a bit pool, a cached word) must stay
+/// non-degenerate whatever was drawn before.
+fn histories(run: &Run, st: bool) {
+    let pairs: Vec<(usize, usize)> = (0..=8usize).flat_map(|a| (0..=8usize).map(move |b| (a, b))).collect();
+    let total = pairs.len() as u64;
+    run.section(&format!("ENV histories {}: one draw of n1 then 64 draws of n2 on a fresh thread, all (n1, n2) in 0..=8 x 0..=8, 4 irregular streams", if st { "LutN" } else { "Lut" }), false, "every ordered pair of sizes; each history on its own thread so that per-thread generator state starts fresh", total, 1, |r, l| {
+        for k in r {
+            let (n1, n2) = pairs[k as usize];
+            for sd in 0..4u64 {
+                let s = Script::Mix { seed: run.seed.wrapping_mul(77).wrapping_add(1000 * sd + k) };
+                fn go<L2: Tab>(n1: usize, n2: usize, s: &Script) -> Result<Vec<Vec<u64>>, String> {
+                    guarded(|| {
+                        rand::script::set(s.clone());
+                        // the earlier, differently sized draw (the kernel is shared by both table types)
+                        let _ = <volute::Lut as Tab>::t_random(n1);
+                        (0..64).map(|_| L2::t_random(n2).t_blocks().to_vec()).collect()
+                    })
+                }
+                let s2 = s.clone();
+                let res = std::thread::scope(|sc| sc.spawn(move || for_type!(st, n2, go(n1, n2, &s2))).join().unwrap_or_else(|_| Err("history thread panicked".into())));
+                l.states += 1;
+                l.transitions += 65;
+                l.validated += 65;
+                let w = nwords(n2);
+                let mask = if n2 < 6 { (1u64 << nbits(n2)) - 1 } else { !0 };
+                let verdict: Result<(), (String, String)> = match &res {
+                    Err(p) => Err((format!("random({}) then 64 x random({}) return", n1, n2), p.clone())),
+                    Ok(ds) => {
+                        let (mut ones, mut zeros) = (vec![0u64; w], vec![0u64; w]);
+                        let mut bad = None;
+                        for d in ds {
+                            if !well_formed(n2, d) {
+                                bad = Some((format!("well-formed draws of size {} after a draw of size {}", n2, n1), format!("[{}]", fmt_words(d))));
+                            }
+                            for i in 0..w.min(d.len()) {
+                                ones[i] |= d[i];
+                                zeros[i] |= !d[i] & mask;
+                            }
+                        }
+                        let distinct: std::collections::BTreeSet<&Vec<u64>> = ds.iter().collect();
+                        if bad.is_none() && (0..w).any(|i| ones[i] != mask || zeros[i] != mask) {
+                            bad = Some((format!("over 64 draws of size {} (after one draw of size {}) every position takes both values", n2, n1), format!("never 1: {:x?}, never 0: {:x?}", (0..w).map(|i| !ones[i] & mask).collect::<Vec<_>>(), (0..w).map(|i| !zeros[i] & mask).collect::<Vec<_>>())));
+                        }
+                        let need = match n2 {
+                            0 => 2,
+                            1 => 3,
+                            2 => 6,
+                            _ => 12,
+                        };
+                        if bad.is_none() && distinct.len() < need {
+                            bad = Some((format!("at least {} distinct tables among 64 draws of size {}", need, n2), format!("{} distinct", distinct.len())));
+                        }
+                        match bad {
+                            Some(b) => Err(b),
+                            None => Ok(()),
+                        }
+                    }
+                };
+                match verdict {
+                    Ok(()) => {
+                        l.nontrivial += (n1 != n2) as u64;
+                        if let Ok(ds) = &res {
+                            l.digest ^= engine::mix3(k, sd, engine::hash_words(&ds[63]));
+                        }
+                    }
+                    Err(v) => l.violation(format!("hist|{}|{:02}|{:02}|{}", if st { "S" } else { "D" }, n1, n2, sd), "C19/random/degenerate-after-history", format!("bin=rng;kind=hist;ty={};n={};n1={};script={}", if st { "S" } else { "D" }, n2, n1, script_str(&s)), v.0, v.1),
+                }
+            }
+            if k == total / 2 {
+                l.sample(J::s(format!("bin=rng;kind=hist;n1={};n={}", n1, n2)));
+            }
+        }
+    });
+}
+
 fn run_all(run: &Run) {
+    histories(run, false);
+    histories(run, true);
     fn ex<L: Tab>(run: &Run, st: bool, n: usize) {
         explore::<L>(run, st, n);
         threads::<L>(run, st, n);
